@@ -18,7 +18,9 @@ import core
 LEVEL_NOTE = ("theorems are about model/BulkOps.v + model/Glob_c17.v (Python list.remove by identity, dict deletion, string "
               "slices incl. name[-0:], for/else made explicit); a matrix is a tree (no Signal object shared between frames); "
               "glob patterns without '['; attribute names/values, ECU names and all untouched fields are opaque integers; "
-              "the DBC writer itself is not modelled - exportability is tested on the implementation")
+              "the DBC writer itself is not modelled - exportability is tested on the implementation; rename_frame is modelled as it is "
+              "with fixes/C17_rename_frame_elif.patch applied (if/elif/elif) - the code without the patch is rename_frame_unfixed "
+              "(theorems ..._refuted / ..._partial: exact whenever no frame name contains '*')")
 
 STAR = "*"
 
@@ -603,6 +605,18 @@ def run(chk):
                         n = copy_nf(nf0)
                         del n["frames"][fi][4][si][3][ai]
                         cands.append((n, ops))
+            for fi, f in enumerate(nf0["frames"]):                 # shorter names
+                for ci in range(len(f[1])):
+                    if len(f[1]) > 1:
+                        n = copy_nf(nf0)
+                        n["frames"][fi][1] = f[1][:ci] + f[1][ci + 1:]
+                        cands.append((n, ops))
+                for si, s in enumerate(f[4]):
+                    for ci in range(len(s[1])):
+                        if len(s[1]) > 1:
+                            n = copy_nf(nf0)
+                            n["frames"][fi][4][si][1] = s[1][:ci] + s[1][ci + 1:]
+                            cands.append((n, ops))
             for cat, idx in (("ecus", 1), ("free", 3)):
                 for oi, o in enumerate(nf0[cat]):
                     for ai in range(len(o[idx])):
@@ -744,11 +758,32 @@ def run(chk):
     # ---- TIE ----
     out = core.run_model(lines)
     bad = 0
-    for inf, exp, o in zip(info, expect, out):
-        if core.parse_out(o) != exp:
-            bad += 1
-            chk.tie_break("bulkops", inf, core.parse_out(o), exp)
-    chk.ties["correspondence"] = {"suite": "bulkops (cmd 1701-1713: model vs implementation)", "cases": len(lines), "disagreements": bad}
+    explained = 0
+    explained_idx = set()
+    differing = [i for i, (exp, o) in enumerate(zip(expect, out)) if core.parse_out(o) != exp]
+    if differing and "rename-frame-star-in-name" in known_keys:
+        # while the rename_frame finding is recorded as known: a difference is explained when the model of the unpatched
+        # code (cmd 1718 / 1719) reproduces the implementation
+        retry = []
+        for i in differing:
+            cmd, rest = lines[i].split(" ", 1)
+            alt = {0x6ac: "6b6", 0x6b0: "6b7"}.get(int(cmd, 16))        # 1708 -> 1718, 1712 -> 1719
+            retry.append((i, alt + " " + rest if alt else None))
+        out2 = core.run_model([l for _, l in retry if l is not None])
+        it = iter(out2)
+        still = []
+        for i, l in retry:
+            if l is not None and core.parse_out(next(it)) == expect[i]:
+                explained += 1
+                explained_idx.add(i)
+            else:
+                still.append(i)
+        differing = still
+    for i in differing:
+        bad += 1
+        chk.tie_break("bulkops", info[i], core.parse_out(out[i]), expect[i])
+    chk.ties["correspondence"] = {"suite": "bulkops (cmd 1701-1713: model vs implementation)", "cases": len(lines), "disagreements": bad,
+                                  "explained_by_known_finding": explained}
     out = core.run_model(glob_lines)
     bad = 0
     for inf, exp, o in zip(glob_info, glob_expect, out):
@@ -766,7 +801,8 @@ def run(chk):
     chk.ties["spec_vs_oracle"] = {"suite": "spec_op (right-hand sides of the theorems, cmd 1714) vs the Python oracle", "cases": len(spec_lines),
                                   "disagreements": bad}
     # in-Coq shard
-    pool = [(l, e) for l, e in zip(lines, expect) if len(l) < 900] + list(zip(glob_lines[:2000], glob_expect[:2000]))
+    pool = [(l, e) for i, (l, e) in enumerate(zip(lines, expect)) if len(l) < 900 and i not in explained_idx] \
+        + list(zip(glob_lines[:2000], glob_expect[:2000]))
     idx = rng.sample(range(len(pool)), min(300, len(pool)))
     shard = []
     for i in idx:
